@@ -101,7 +101,7 @@ Qed.
 
 Lemma KS_step s st : KS s -> KS (exec1 prepaired s st).
 Proof.
-  intros K. destruct st as [n|n|n|k|k| |]; unfold exec1.
+  intros K. destruct st as [n|n|n|k|k| | |sp]; unfold exec1.
   - (* Start *)
     destruct ((last s <? n) && (n <=? max64)) eqn:E; [|exact K].
     apply andb_prop in E. destruct E as [E1 E2].
@@ -215,6 +215,21 @@ Proof.
       * intros ? [].
       * exact (k_ok s K).
       * intros ? [].
+  - (* Rewind *)
+    destruct (mem sp (written s)) eqn:E; [|exact K].
+    constructor; cbn [files completed last inflW inflU pend_rm written].
+    + exact (k_files s K).
+    + exact (k_newest s K).
+    + intros ? [].
+    + intros ? ? [].
+    + intros c [Hc|[]] [].
+    + intros c [Hc|[]] [].
+    + intros c [Hc|[]]. subst c. lia.
+    + intros ? [].
+    + intros ? [].
+    + intros ? [].
+    + exact (k_ok s K).
+    + intros ? [].
 Qed.
 
 Lemma KS_exec l : forall s, KS s -> KS (exec prepaired s l).
@@ -327,7 +342,7 @@ Qed.
 
 Lemma NS_step s st : KS s -> NS s -> NS (exec1 prepaired s st).
 Proof.
-  intros K Nn. destruct st as [n|n|n|k|k| |]; unfold exec1.
+  intros K Nn. destruct st as [n|n|n|k|k| | |sp]; unfold exec1.
   - (* Start *)
     destruct ((last s <? n) && (n <=? max64)) eqn:E; [|exact Nn].
     apply andb_prop in E. destruct E as [E1 E2].
@@ -456,6 +471,16 @@ Proof.
         split; [intros []|]. split; [intros []|]. split.
         -- unfold maxw. rewrite Ew. apply list_max_ge. exact (Hrw x0 Hx).
         -- exact (Hrw x0 Hx).
+  - (* Rewind: new subscribers, nothing received yet *)
+    destruct (mem sp (written s)) eqn:E; [|exact Nn].
+    constructor; cbn [files completed last inflW inflU pend_rm nwait nhold written received].
+    + cbn. lia.
+    + exact I.
+    + intros r [].
+    + intros h Hh. discriminate.
+    + intros m [].
+    + constructor.
+    + intros x0 Hx. unfold notif_ids in Hx. cbn [nwait nhold received] in Hx. destruct Hx as [[]|[Hx|[]]]. discriminate.
 Qed.
 
 Lemma NS_exec l : forall s, KS s -> NS s -> NS (exec prepaired s l).
